@@ -76,10 +76,12 @@ Proof.
     + apply after_switch_tr. reflexivity.
     + simpl. ts_same.
   - destruct (sfn s); [|ts_fin]. apply after_switch_tr. reflexivity.
-  - destruct (find_deferred_below (scalls s) i) as [[j d]|]; [|ts_same].
-    destruct (nth_error (scalls s) (S j)); [|ts_fin]. apply after_switch_tr. reflexivity.
+  - destruct (scan_panicked (scalls s) i _ _) as [[[[j d]|] chain']|]; [| |ts_fin].
+    + destruct (nth_error (scalls s) (S j)); [|ts_fin]. apply after_switch_tr. reflexivity.
+    + ts_same.
   - cbv zeta. change (status_eqb Recovered Recovered) with true. cbv iota.
-    destruct (prev_deferred (scalls (trim s)) i) as [[j prev]|].
+    unfold trim. destruct (schain s) as [|p0 r0]; [ts_fin|].
+    match goal with |- context [prev_deferred ?c i] => destruct (prev_deferred c i) as [[j prev]|] end.
     + apply after_switch_tr. reflexivity.
     + simpl. ts_same.
 Qed.
@@ -291,6 +293,52 @@ Definition chain_ok (s : state) : Prop :=
   desc (map pser (schain s)) (sraised s) /\
   Forall (fun sv => desc (map pser (vchain sv)) (sraised s)) (souter s).
 
+(* a record without its aborted flag *)
+Definition pkey (p : prec) : N * bool * option N * N := (pmsg p, precovered p, ppos p, pser p).
+
+Lemma pkey_ser l l' : map pkey l = map pkey l' -> map pser l = map pser l'.
+Proof.
+  intros H. assert (E : forall x, map pser x = map (fun k => snd k) (map pkey x)).
+  { intros x. rewrite map_map. reflexivity. }
+  rewrite (E l), (E l'), H. reflexivity.
+Qed.
+
+Lemma drop_ab_skipn c : exists n, drop_ab c = skipn n c.
+Proof.
+  induction c as [|p r [n IH]]; [exists 0%nat; reflexivity|]. simpl.
+  destruct (paborted p); [exists (S n); exact IH|exists 0%nat; reflexivity].
+Qed.
+
+Lemma mark_next_key post : forall done rest, mark_next post = Some (done, rest) ->
+  map pkey (done ++ rest) = map pkey post.
+Proof.
+  induction post as [|q r IH]; intros done rest H; simpl in H; [discriminate|].
+  destruct (paborted q).
+  - destruct (mark_next r) as [[d' r']|]; [|discriminate]. inversion H; subst.
+    simpl. f_equal. apply IH. reflexivity.
+  - inversion H; subst. reflexivity.
+Qed.
+
+Lemma scan_panicked_key c : forall i pre post r ch,
+  scan_panicked c i pre post = Some (r, ch) -> map pkey ch = map pkey (pre ++ post).
+Proof.
+  induction i as [|j IH]; intros pre post r ch H; simpl in H.
+  - inversion H; subst. reflexivity.
+  - destruct (nth_error c j) as [fr|]; [|discriminate].
+    assert (Hm : match mark_next post with
+                 | Some (done, rest) => scan_panicked c j (pre ++ done) rest
+                 | None => None
+                 end = Some (r, ch) -> map pkey ch = map pkey (pre ++ post)).
+    { destruct (mark_next post) as [[done rest]|] eqn:Hmk; [|discriminate]. intros H1.
+      rewrite (IH _ _ _ _ H1), <- app_assoc, !map_app. f_equal.
+      rewrite <- map_app. apply mark_next_key. exact Hmk. }
+    destruct (fstat fr); try (apply (IH _ _ _ _ H)); try (apply Hm; exact H).
+    inversion H; subst. reflexivity.
+Qed.
+
+Lemma chain_split_app c : fst (chain_split c) ++ snd (chain_split c) = c.
+Proof. destruct c; reflexivity. Qed.
+
 (* how one step changes the chain *)
 Inductive ch_step (s : state) : sres -> Prop :=
 | CS_same s' : schain s' = schain s -> sraised s' = sraised s -> souter s' = souter s -> ch_step s (Next s')
@@ -298,13 +346,16 @@ Inductive ch_step (s : state) : sres -> Prop :=
     schain s' = p :: schain s -> pser p = sraised s -> precovered p = false ->
     sraised s' = N.succ (sraised s) -> souter s' = souter s -> ch_step s (Next s')
 | CS_flag s' p ps f down i1 i :
-    schain s = p :: ps -> schain s' = mkprec (pmsg p) true (ppos p) (pser p) :: ps ->
+    schain s = p :: ps -> schain s' = mkprec (pmsg p) true (paborted p) (ppos p) (pser p) :: ps ->
     sraised s' = sraised s -> souter s' = souter s ->
     smode s = MExec -> sfn s = Some f -> fetch f (spc s) = Some (IRecover down) ->
     recover_start (scalls s) down = Some i1 -> recover_search (scalls s) i1 = Some i ->
     scalls s' = mark_recovered (scalls s) i ->
     ch_step s (Next s')
 | CS_trim s' n : schain s' = skipn n (schain s) -> sraised s' = sraised s -> souter s' = souter s -> ch_step s (Next s')
+| CS_mark s' :
+    (* the aborted flags of some records change, nothing else *)
+    map pkey (schain s') = map pkey (schain s) -> sraised s' = sraised s -> souter s' = souter s -> ch_step s (Next s')
 | CS_enter s' sv :
     (* a native function calls back: a new VM with an empty chain, the chain of the caller is kept *)
     schain s' = [] -> sraised s' = sraised s -> vchain sv = schain s -> souter s' = sv :: souter s ->
@@ -354,14 +405,15 @@ Proof.
     + destruct (sfn s); cs_fin.
 Qed.
 
-(* after the trimming of a recovered frame: the next deferred call of the same function *)
-Lemma after_switch_trim_ch s c call i :
-  ch_step s (after_switch (set_calls (trim s) c) call i).
+(* after a step of nextCall that changed the chain: the deferred call it goes on with *)
+Lemma after_switch_any_ch s0 s call i :
+  (forall s', schain s' = schain s -> sraised s' = sraised s -> souter s' = souter s -> ch_step s0 (Next s')) ->
+  ch_step s0 (after_switch s call i).
 Proof.
-  unfold after_switch. destruct (fcl call) as [f|nk].
-  - eapply CS_trim; reflexivity.
+  intros H. unfold after_switch. destruct (fcl call) as [f|nk].
+  - apply H; reflexivity.
   - destruct nk; simpl; try cs_fin.
-    + eapply CS_trim; reflexivity.
+    + apply H; reflexivity.
     + destruct (sfn s); cs_fin.
 Qed.
 
@@ -377,12 +429,19 @@ Proof.
     + apply after_switch_ch; reflexivity.
     + simpl. cs_same.
   - destruct (sfn s); [|cs_fin]. apply after_switch_ch; reflexivity.
-  - destruct (find_deferred_below (scalls s) i) as [[j d]|]; [|cs_same].
-    destruct (nth_error (scalls s) (S j)); [|cs_fin]. apply after_switch_ch; reflexivity.
+  - destruct (scan_panicked (scalls s) i _ _) as [[[[j d]|] chain']|] eqn:Hsc; [| |cs_fin].
+    + apply scan_panicked_key in Hsc. rewrite chain_split_app in Hsc.
+      destruct (nth_error (scalls s) (S j)); [|cs_fin].
+      apply after_switch_any_ch. intros s' Hc Hr Ho. apply CS_mark; [rewrite Hc; exact Hsc|exact Hr|exact Ho].
+    + apply scan_panicked_key in Hsc. rewrite chain_split_app in Hsc.
+      apply CS_mark; [exact Hsc|reflexivity|reflexivity].
   - cbv zeta. change (status_eqb Recovered Recovered) with true. cbv iota.
-    destruct (prev_deferred (scalls (trim s)) i) as [[j prev]|].
-    + apply after_switch_trim_ch.
-    + simpl. eapply CS_trim; reflexivity.
+    unfold trim. destruct (schain s) as [|p0 r0] eqn:Hch; [cs_fin|].
+    destruct (drop_ab_skipn r0) as [n Hn].
+    match goal with |- context [prev_deferred ?c i] => destruct (prev_deferred c i) as [[j prev]|] end.
+    + apply after_switch_any_ch. intros s' Hc Hr Ho.
+      apply CS_trim with (n := S n); [rewrite Hc, Hch; exact Hn|exact Hr|exact Ho].
+    + apply CS_trim with (n := S n); [rewrite Hch; exact Hn|reflexivity|reflexivity].
 Qed.
 
 Lemma raise_ch s0 s f pc v :
@@ -390,7 +449,7 @@ Lemma raise_ch s0 s f pc v :
 Proof.
   intros Hc Hr Ho. unfold raise. destruct (scalls s).
   - apply end_panic_ch. right.
-    eexists (mkprec v false _ (sraised s)). simpl. split; [exact Hr|]. split; [reflexivity|].
+    eexists (mkprec v false false _ (sraised s)). simpl. split; [exact Hr|]. split; [reflexivity|].
     rewrite Hc. reflexivity.
   - eapply CS_push; simpl; [rewrite Hc; reflexivity|exact Hr|reflexivity|rewrite Hr; reflexivity|exact Ho].
 Qed.
@@ -436,12 +495,13 @@ Lemma step_chain_ok s s' : step s = Next s' -> chain_ok s -> chain_ok s'.
 Proof.
   intros Hs [Hok Hout]. assert (H := step_ch s). rewrite Hs in H. unfold chain_ok in *.
   inversion H as [s1 Hc Hr Ho | s1 p Hc Hp Hrec Hr Ho | s1 p ps f down i1 i Hc0 Hc Hr Ho Hm Hf Hfe Hs1 Hs2 Hcalls
-                 | s1 n Hc Hr Ho | s1 sv Hc Hr Hv Ho | s1 sv rest Ho0 Hc0 Hc Hr Ho | o tr Hfin].
+                 | s1 n Hc Hr Ho | s1 Hc Hr Ho | s1 sv Hc Hr Hv Ho | s1 sv rest Ho0 Hc0 Hc Hr Ho | o tr Hfin].
   - rewrite Hc, Hr, Ho. split; assumption.
   - rewrite Hc, Hr, Ho. simpl. rewrite Hp. split; [split; [lia|exact Hok]|].
     eapply Forall_desc_weaken; [exact Hout|lia].
   - rewrite Hc, Hr, Ho. rewrite Hc0 in Hok. split; assumption.
   - rewrite Hc, Hr, Ho. split; [|assumption]. rewrite map_skipn'. apply desc_skipn. exact Hok.
+  - rewrite Hr, Ho. split; [|assumption]. rewrite (pkey_ser _ _ Hc). exact Hok.
   - rewrite Hc, Hr, Ho. split; [exact I|]. constructor; [rewrite Hv; exact Hok|exact Hout].
   - rewrite Hc, Hr, Ho. rewrite Ho0 in Hout. inversion Hout as [|x l Hx Hl]. split; assumption.
 Qed.
@@ -514,7 +574,7 @@ Proof.
                  exists p, In p (schain s ++ flat_map vchain (souter s)) /\ pser p = pser p' /\ precovered p = true)
     by (intros Hi; exists p'; auto).
   inversion H as [s1 Hc Hr Ho | s1 p Hc Hp Hprec Hr Ho | s1 p ps f down i1 i Hc0 Hc Hr Ho Hm Hf Hfe Hs1 Hs2 Hcalls
-                 | s1 n Hc Hr Ho | s1 sv Hc Hr Hv Ho | s1 sv rest Ho0 Hc0 Hc Hr Ho | o tr Hfin].
+                 | s1 n Hc Hr Ho | s1 Hc Hr Ho | s1 sv Hc Hr Hv Ho | s1 sv rest Ho0 Hc0 Hc Hr Ho | o tr Hfin].
   - left. apply Hold. rewrite Hc, Ho in Hin. exact Hin.
   - rewrite Hc, Ho in Hin. destruct Hin as [->|Hin].
     + rewrite Hprec in Hrec. discriminate.
@@ -526,6 +586,12 @@ Proof.
     destruct Hin as [Hin|Hin]; [left|right; exact Hin].
     clear - Hin. revert Hin. generalize (schain s). induction n; intros l Hin; [exact Hin|].
     destruct l; [exact Hin|]. right. apply IHn. exact Hin.
+  - (* marks: the same record up to its aborted flag *)
+    left. rewrite Ho in Hin. apply in_app_or in Hin. destruct Hin as [Hin|Hin].
+    + assert (Hk : In (pkey p') (map pkey (schain s))) by (rewrite <- Hc; apply in_map; exact Hin).
+      apply in_map_iff in Hk. destruct Hk as [p [Hp Hpin]]. exists p. split; [apply in_or_app; left; exact Hpin|].
+      unfold pkey in Hp. inversion Hp. split; [reflexivity|]. congruence.
+    + exists p'. split; [apply in_or_app; right; exact Hin|auto].
   - left. apply Hold. rewrite Hc, Ho in Hin. simpl in Hin. rewrite Hv in Hin. exact Hin.
   - left. apply Hold. rewrite Hc, Ho in Hin. rewrite Ho0, Hc0. simpl. exact Hin.
 Qed.
@@ -548,7 +614,7 @@ Definition panics_with (i : instr) (v : N) : Prop := i = IPanic v \/ i = INat (N
 Theorem panic_position s f ins v :
   smode s = MExec -> sfn s = Some f -> fetch f (spc s) = Some ins -> panics_with ins v ->
   (exists s', step s = Next s' /\
-     schain s' = mkprec v false (debug_line f (spc s)) (sraised s) :: schain s) \/
+     schain s' = mkprec v false false (debug_line f (spc s)) (sraised s) :: schain s) \/
   (exists tr, step s = Fin (OPanic ((v, false, debug_line f (spc s)) :: chain_view (schain s))) tr) \/
   (* in the VM of a callback, with no frame left: Run panics with the text of the chain *)
   (exists tr, souter s <> [] /\ step s = Fin (OCbPanic ((v, false) :: cb_view (schain s))) tr).
@@ -556,7 +622,7 @@ Proof.
   intros Hm Hf Hfe Hp. unfold step. rewrite Hm. unfold step_exec. rewrite Hf, Hfe.
   assert (Hr : forall s1, scalls s1 = scalls s -> schain s1 = schain s -> sraised s1 = sraised s -> souter s1 = souter s ->
      (exists s', raise s1 f (spc s) v = Next s' /\
-        schain s' = mkprec v false (debug_line f (spc s)) (sraised s) :: schain s) \/
+        schain s' = mkprec v false false (debug_line f (spc s)) (sraised s) :: schain s) \/
      (exists tr, raise s1 f (spc s) v = Fin (OPanic ((v, false, debug_line f (spc s)) :: chain_view (schain s))) tr) \/
      (exists tr, souter s <> [] /\ raise s1 f (spc s) v = Fin (OCbPanic ((v, false) :: cb_view (schain s))) tr)).
   { intros s1 Hc Hch Hra Hou. unfold raise, end_panic. rewrite Hc, Hch, Hra, Hou. destruct (scalls s).
